@@ -3,6 +3,8 @@ import AfkakProofs.Assign.Facts
 import AfkakProofs.Assign.Metadata
 import AfkakProofs.Assign.Total
 import AfkakProofs.Assign.LoaderFaithful
+import AfkakProofs.Assign.SyncWire
+import AfkakProofs.Assign.LoaderNodup
 /-!
 # C15 — Group assignment gives every partition to exactly one subscribed member
 
@@ -225,6 +227,137 @@ theorem C15_metadata_total (subs : List Str) (h : subsEncodable subs = true) :
   obtain ⟨bs, hbs⟩ := joinGroupMetadata_ok h
   exact ⟨bs, hbs, decodeMetadata_encode hbs⟩
 
+/-! ## The second sentence across the real SyncGroup wire path
+
+`generate_assignments` → `_SyncGroupRequest.group_assignment` (`syncEntries`: the member ids as UTF-8)
+→ `KafkaCodec.encode_sync_group_request` (wire model `Afkak.Wire.encodeSyncGroupRequest`) → a broker
+that PARSES THE REQUEST BYTES with the protocol grammar's request decoder (`Afkak.Wire.Spec`, independent
+of afkak) and answers each member with its own entry, framed by the grammar's response encoder
+(`brokerSyncEcho`) → `KafkaCodec.decode_sync_group_response` (`Afkak.Wire.decodeSyncGroupResponse`) →
+`_ConsumerProtocol.decode_assignment` (`memberViaSync`; definitions in `Afkak/AssignSync.lean`).
+`corrOf id` is the correlation id of member `id`'s own SyncGroup request, which the response echoes. -/
+
+/-- For ALL members, partition maps, client ids, correlation ids, group / leader ids and generations:
+    whenever the leader's `generate_assignments` returns, its member ids encode as UTF-8 and
+    `encode_sync_group_request` returns a frame, every listed member — a member listed twice
+    included — decodes from the SyncGroup response the broker builds out of that frame exactly the
+    map the round-robin assignment gave it (`assignments.get(member_id, {})`). -/
+theorem C15_sync_group_wire_decodes_own (members : List Member) (tp : Dict Str (List Int))
+    (encs : List (Str × Bytes)) (ga : List (Option Bytes × Option Bytes)) (cid g leader frame : Bytes)
+    (corr gen : Int) (corrOf : Str → Int)
+    (h : generateAssignments members tp = .ok encs) (hga : syncEntries encs = .ok ga)
+    (hf : Afkak.Wire.encodeSyncGroupRequest cid corr (some g) gen (some leader) ga = .ok frame)
+    (hc : corrsInRange corrOf members = true) :
+    ∃ asg, roundRobin (memberMetadata members) tp = .ok asg ∧
+      (∀ m ∈ members, memberViaSync frame (corrOf m.1) m.1 = some (assignmentOf asg m.1)) ∧
+      observeViaSync frame corrOf (members.map (·.1)) = some (perMember asg members) := by
+  obtain ⟨asg, h1, h2⟩ := memberViaSync_eq h hga hf
+  have h3 : ∀ m ∈ members, memberViaSync frame (corrOf m.1) m.1 = some (assignmentOf asg m.1) :=
+    fun m hm => h2 m hm _ (List.all_eq_true.mp hc m hm)
+  exact ⟨asg, h1, h3, observeViaSync_eq corrOf members h3⟩
+
+/-- End to end over the wire: what the members decode from their SyncGroup responses satisfies every
+    demand of C15 (the same monitor predicates as `C15_end_to_end`). -/
+theorem C15_end_to_end_sync_group_wire (members : List Member) (tp : Dict Str (List Int))
+    (encs : List (Str × Bytes)) (ga : List (Option Bytes × Option Bytes)) (cid g leader frame : Bytes)
+    (corr gen : Int) (corrOf : Str → Int)
+    (hwf : wellFormed members tp = true)
+    (h : generateAssignments members tp = .ok encs) (hga : syncEntries encs = .ok ga)
+    (hf : Afkak.Wire.encodeSyncGroupRequest cid corr (some g) gen (some leader) ga = .ok frame)
+    (hc : corrsInRange corrOf members = true) :
+    ∃ obs, observeViaSync frame corrOf (members.map (·.1)) = some obs ∧ answersAll members obs = true ∧
+      exactlyOnce members tp obs = true ∧ nothingElse members tp obs = true ∧
+      onlySubscribed members obs = true ∧ balanced members obs = true := by
+  obtain ⟨asg, h1, -, h3⟩ :=
+    C15_sync_group_wire_decodes_own members tp encs ga cid g leader frame corr gen corrOf h hga hf hc
+  obtain ⟨e1, e2, e3⟩ := C15_exactly_once members tp asg hwf h1
+  exact ⟨_, h3, e3, e1, e2, C15_only_subscribed members tp asg hwf h1, C15_balanced members tp asg hwf h1⟩
+
+/-- … and the request encoder cannot refuse: when the values are ones the grammar can carry
+    (`syncRequestInRange`: ids of at most 32767 bytes, int32 correlation id / generation / count,
+    assignments shorter than 2^31 bytes) `encode_sync_group_request` does return a frame, and the
+    members decode their own maps from the responses built out of it. -/
+theorem C15_sync_group_wire_total (members : List Member) (tp : Dict Str (List Int))
+    (encs : List (Str × Bytes)) (ga : List (Option Bytes × Option Bytes)) (cid g leader : Bytes)
+    (corr gen : Int) (corrOf : Str → Int)
+    (h : generateAssignments members tp = .ok encs) (hga : syncEntries encs = .ok ga)
+    (hr : syncRequestInRange cid corr g gen leader ga = true) (hc : corrsInRange corrOf members = true) :
+    ∃ frame asg, Afkak.Wire.encodeSyncGroupRequest cid corr (some g) gen (some leader) ga = .ok frame ∧
+      roundRobin (memberMetadata members) tp = .ok asg ∧
+      observeViaSync frame corrOf (members.map (·.1)) = some (perMember asg members) := by
+  unfold syncRequestInRange at hr
+  cases hps : Afkak.Monitor.C04.pairs ga with
+  | none => rw [hps] at hr; cases hr
+  | some ps =>
+    rw [hps] at hr
+    obtain ⟨frame, hf⟩ := Afkak.Wire.syncGroup_total hps hr
+    obtain ⟨asg, h1, -, h3⟩ :=
+      C15_sync_group_wire_decodes_own members tp encs ga cid g leader frame corr gen corrOf h hga hf hc
+    exact ⟨frame, asg, hf, h1, h3⟩
+
+/-- Which entry a broker keeps for a member named twice in the leader's request does not matter: the
+    frame parses (with the grammar's request decoder) to the caller's header, group, generation and
+    leader id and one entry per listed member, and entries that name the same member carry the same
+    bytes. -/
+theorem C15_sync_group_wire_entries_agree (members : List Member) (tp : Dict Str (List Int))
+    (encs : List (Str × Bytes)) (ga : List (Option Bytes × Option Bytes)) (cid g leader frame : Bytes)
+    (corr gen : Int)
+    (h : generateAssignments members tp = .ok encs) (hga : syncEntries encs = .ok ga)
+    (hf : Afkak.Wire.encodeSyncGroupRequest cid corr (some g) gen (some leader) ga = .ok frame) :
+    ∃ ps, (Afkak.Wire.Spec.request Afkak.Wire.Spec.syncGroupRequest).dec frame
+        = some (Afkak.Monitor.C04.hdr 14 0 corr cid, g, gen, leader, ps) ∧
+      ps.length = members.length ∧ ∀ p ∈ ps, ∀ q ∈ ps, p.1 = q.1 → p.2 = q.2 := by
+  obtain ⟨asg, -, h2⟩ := generateAssignments_ok h
+  obtain ⟨ps, hps, -, -⟩ := syncEntries_pairs hga
+  refine ⟨ps, Afkak.Wire.syncGroup_parse hf hps, ?_, syncEntries_same_id h2 hga hps⟩
+  rw [Afkak.Wire.mapM_length _ _ _ hps, syncEntries_length hga, encodeEach_length h2]
+
+/-! ## From the loader's snapshot to what the members decode -/
+
+/-- From the loader to the members, in one statement: when `_load_topic_partitions` fires (after `n`
+    requests, whatever the replies were) and the leader's `_join_and_sync` glue returns the encoded
+    assignments, then — member ids being distinct, the only hypothesis left — what the members decode
+    satisfies every demand of C15 AGAINST THE PARTITIONS THE CLUSTER REPORTED: the snapshot the
+    assignment ran on lists, for every subscribed topic, exactly the partition ids of the `n`-th
+    metadata reply (`loadFaithful`), and that no topic of it lists an id twice is proved of the
+    loader, not assumed. -/
+theorem C15_loader_to_members (w : List (Str × Bytes)) (ms : List Member) (hd : decodeMembers w = .ok ms)
+    (replies : List MetaReply) (snap : Dict Str (List Int)) (n : Nat) (load : List Str → Dict Str (List Int))
+    (encs : List (Str × Bytes))
+    (hl : loadTopicPartitions (sortBy strLe (allTopics (memberMetadata ms))) replies = some (snap, n))
+    (hload : load (sortBy strLe (allTopics (memberMetadata ms))) = snap)
+    (hids : (ms.map (·.1)).Nodup) (h : leaderAssign w load = .ok encs) :
+    wellFormed ms snap = true ∧ generateAssignments ms snap = .ok encs ∧
+    (∃ r, replies[n - 1]? = some r ∧
+      loadFaithful (sortBy strLe (allTopics (memberMetadata ms))) r snap = true) ∧
+    ∃ obs, observe encs = some obs ∧ answersAll ms obs = true ∧ exactlyOnce ms snap obs = true ∧
+      nothingElse ms snap obs = true ∧ onlySubscribed ms obs = true ∧ balanced ms obs = true := by
+  have hwf : wellFormed ms snap = true := wellFormed_iff.mpr ⟨hids, loadTopicPartitions_nodup hl⟩
+  have hgen : generateAssignments ms snap = .ok encs := by
+    rcases C15_leader_glue w ms hd replies snap n load hl hload with ⟨-, he⟩ | ⟨-, asg, h1, h2⟩
+    · rw [he] at h; cases h
+    · rw [h2] at h
+      simp only [generateAssignments, h1, h]
+  exact ⟨hwf, hgen, (C15_loader_faithful _ replies snap n hl).2, C15_end_to_end ms snap encs hwf hgen⟩
+
+/-- … and across the SyncGroup wire path. -/
+theorem C15_loader_to_members_sync_group_wire (w : List (Str × Bytes)) (ms : List Member)
+    (hd : decodeMembers w = .ok ms)
+    (replies : List MetaReply) (snap : Dict Str (List Int)) (n : Nat) (load : List Str → Dict Str (List Int))
+    (encs : List (Str × Bytes)) (ga : List (Option Bytes × Option Bytes)) (cid g leader frame : Bytes)
+    (corr gen : Int) (corrOf : Str → Int)
+    (hl : loadTopicPartitions (sortBy strLe (allTopics (memberMetadata ms))) replies = some (snap, n))
+    (hload : load (sortBy strLe (allTopics (memberMetadata ms))) = snap)
+    (hids : (ms.map (·.1)).Nodup) (h : leaderAssign w load = .ok encs)
+    (hga : syncEntries encs = .ok ga)
+    (hf : Afkak.Wire.encodeSyncGroupRequest cid corr (some g) gen (some leader) ga = .ok frame)
+    (hc : corrsInRange corrOf ms = true) :
+    ∃ obs, observeViaSync frame corrOf (ms.map (·.1)) = some obs ∧ answersAll ms obs = true ∧
+      exactlyOnce ms snap obs = true ∧ nothingElse ms snap obs = true ∧
+      onlySubscribed ms obs = true ∧ balanced ms obs = true := by
+  obtain ⟨hwf, hgen, -, -⟩ := C15_loader_to_members w ms hd replies snap n load encs hl hload hids h
+  exact C15_end_to_end_sync_group_wire ms snap encs ga cid g leader frame corr gen corrOf hwf hgen hga hf hc
+
 /-! ## Non-vacuity: concrete inputs meeting the hypotheses, and monitors that can fail -/
 
 /-- "b" wants t1,t2; "a" wants t1; "c" is alone on t3 (which has no partitions). Listed unsorted. -/
@@ -264,6 +397,33 @@ example : onlySubscribed exMembers [([97], [([116, 50], [2])])] = false := by de
 example : balanced [([98], [[116]]), ([97], [[116]])] [([98], [([116], [0, 1, 2])]), ([97], [([116], [3])])] = false := by decide +kernel
 example : nothingElse exMembers exTp [([97], [([116, 49], [7])])] = false := by decide +kernel
 example : sameAssignment [([97], [([116], [0])])] [([97], [([116], [1])])] = false := by decide +kernel
+-- the SyncGroup wire path: the hypotheses hold on the example (client id "c", correlation id 7, group
+-- "g", generation 3, leader "b"), member "a" gets t1:[0,5] and "c" the empty map over the wire, a
+-- stranger gets no response; and the range predicates can fail
+example : (match generateAssignments exMembers exTp with
+  | .ok encs => match syncEntries encs with
+    | .ok ga => match Afkak.Wire.encodeSyncGroupRequest [99] 7 (some [103]) 3 (some [98]) ga with
+      | .ok frame => memberViaSync frame 8 [97] == some [([116, 49], [0, 5])] &&
+          memberViaSync frame 9 [99] == some [] && memberViaSync frame 9 [122] == none
+      | _ => false
+    | _ => false
+  | _ => false) = true := by decide +kernel
+example : (match generateAssignments exMembers exTp with
+  | .ok encs => match syncEntries encs with
+    | .ok ga => syncRequestInRange [99] 7 [103] 3 [98] ga && !syncRequestInRange [99] 2147483648 [103] 3 [98] ga
+    | _ => false
+  | _ => false) = true := by decide +kernel
+example : corrsInRange (fun id => 1000 + id.length) exMembers = true := by decide
+example : corrsInRange (fun _ => 2147483648) exMembers = false := by decide
+-- `C15_loader_to_members`: a reply listing partition 1 of t1 twice completes the load, the glue returns
+-- the encoded assignments (the ids of `exMembers` are distinct), and the snapshot lists 1 once
+example : (match (wireOf exMembers).toOption,
+      loadTopicPartitions (sortBy strLe (allTopics (memberMetadata exMembers)))
+        [[([116, 49], (0, [1, 0, 1])), ([116, 50], (0, [2])), ([116, 51], (0, [4]))]] with
+  | some w, some (snap, n) =>
+    (leaderAssign w (fun _ => snap)).toOption.isSome && decide ((exMembers.map (·.1)).Nodup) &&
+      (decodeMembers w).toOption == some exMembers && n == 1 && dget [116, 49] snap == some [0, 1]
+  | _, _ => false) = true := by decide +kernel
 
 end Afkak.Props.C15
 
@@ -286,6 +446,12 @@ C15_loader_contract
 C15_loader_faithful
 C15_leader_glue
 C15_metadata_total
+C15_sync_group_wire_decodes_own
+C15_end_to_end_sync_group_wire
+C15_sync_group_wire_total
+C15_sync_group_wire_entries_agree
+C15_loader_to_members
+C15_loader_to_members_sync_group_wire
 -/
 /- OPEN_STATEMENTS
 -/
